@@ -1,12 +1,17 @@
 import KyupyVerif.Proofs.Encode
+import KyupyVerif.Proofs.EncodeNested
 /-! # C15 — logic-value encodings convert losslessly and follow the axis convention (model level)
 
 Statements about the hand-written executable model `Model/Encode.lean` (`KV.Enc`), for **every** leading shape,
 pattern count `P`, signal count, bit width `w > 0` and signedness.  An array is `Arr`: `lead` (all axes but the
 last), `last` (length of the last axis), `rows` (`lead.prod` last-axis vectors in C order); `wf` says exactly that.
 
-* THEOREM (this file): round trip `bp_to_mv ∘ mv_to_bp`, plane/byte/bit layout, axis arrangement of `mvarray`,
-  `packbits`/`unpackbits` inverse laws, `cdiv`.
+* THEOREM (this file): round trip `bp_to_mv ∘ mv_to_bp`, plane/byte/bit layout, axis arrangement of `mvarray` for a flat list of
+  strings (`axes`, …) AND for arguments nested two deep (`mvarray_nested`, `mvarray_nested_block`: groups = new first axis, each
+  group arranged as the flat call; audit 2 finding 9), `packbits`/`unpackbits` inverse laws, `cdiv`.  Depth 3 (and the corner
+  cases of depth 2: one-string groups, one-character strings, empty and ragged nestings) is MODELLED (`mvarray3`, `stack`,
+  `arrange`) and TIED (`enc.mvarrayn`), not stated as a general theorem.  `mv_str` of an array with more than two axes raises
+  TypeError in the real code (model `mvStr = none`): rendering is lossless for ≤ 2-D only — recorded as restriction, see harness.
 * THEOREM over GENERATED tables (`Props/C15Gen.lean`): render/parse of the eight values, aliases, `mv_str ∘ mvarray`,
   `popcount`, `bit_in`.
 * THEOREM, composition with C01/C02/C06 (`Props/C15Sim.lean`): the byte planes of `mv_to_bp` ARE the `BitVec` lanes of the bit-parallel
@@ -114,6 +119,49 @@ theorem axes_one_signal (tbl : List (Nat × Nat)) (ss : List (List Nat)) (hne : 
 /-- guard: strings of different lengths raise (`np.array` on a ragged list) -/
 theorem mvarray_ragged_raises (tbl : List (Nat × Nat)) (s0 : List Nat) (rest : List (List Nat))
     (h : ∃ s ∈ rest, s.length ≠ s0.length) : mvarray tbl (s0 :: rest) = none := mvarray_ragged tbl s0 rest h
+
+/-! ## mvarray with nested arguments (audit 2, finding 9) -/
+
+/-- **nested arguments, depth 2** — `mvarray(['01','1X'], ['--','HL'])`: `G ≥ 1` groups (the arguments), each a list of `P ≥ 2`
+pattern strings of common length `S ≠ 1`. The result has shape `(G, S, P)`: the groups form a new FIRST (batch) axis, and inside
+group `g` the `(S, P)` block holds, at `(sig, pat)`, the interpreted character `sig` of string `pat` — signals second-to-last,
+patterns last, exactly as the flat call arranges that group (`axes`). Model: `mvarray2` = `np.array(interpret(a))` (`stack`,
+homogeneous nesting or ValueError) followed by the three lines of `mvarray` (`arrange`); tied by `enc.mvarrayn` for depth 1, 2, 3
+(incl. one-string groups → `mva[..., 0, :]`, one-character strings, ragged and empty nestings). -/
+theorem mvarray_nested (tbl : List (Nat × Nat)) (gs : List (List (List Nat))) (P S : Nat) (hne : gs ≠ [])
+    (hP : ∀ g ∈ gs, g.length = P) (hS : ∀ g ∈ gs, ∀ s ∈ g, s.length = S) (hP2 : 2 ≤ P) (hS1 : S ≠ 1) :
+    mvarray2 tbl gs = some ⟨[gs.length, S, P],
+      gs.flatMap fun g => (List.range S).flatMap fun sig => g.map fun s => interpretWith tbl (s.getD sig 0)⟩ :=
+  mvarray2_spec tbl gs P S hne hP hS hP2 hS1
+
+/-- … and each group's block IS the flat `mvarray` of that group (rows = signals, C order) -/
+theorem mvarray_nested_block (tbl : List (Nat × Nat)) (g : List (List Nat)) (S : Nat)
+    (hS : ∀ s ∈ g, s.length = S) (hP2 : 2 ≤ g.length) (hS1 : S ≠ 1) :
+    (mvarray tbl g).map (·.data) =
+      some ((List.range S).flatMap fun sig => g.map fun s => interpretWith tbl (s.getD sig 0)) := by
+  rw [mvarray_2d tbl g S hS hP2 hS1]
+  simp only [Option.map_some, Arr.data, Option.some.injEq]
+  rw [← List.flatMap_def]
+  apply flatMap_congr'
+  intro j hj
+  have hj' := List.mem_range.1 hj
+  rw [List.map_map]
+  apply List.map_congr_left
+  intro s hs
+  have := hS s hs
+  simp only [Function.comp, List.getD_eq_getElem?_getD, List.getElem?_map]
+  rw [List.getElem?_eq_getElem (by omega)]
+  simp
+
+/-- hypotheses satisfiable; the auditor's example `mvarray(['01X','10-'],['11R','00F'])` has shape (2,3,2) (real code: same data);
+depth 3 (`mvarray3`, no general theorem — tie only): shape (2,2,2,2); one-string groups: `mva[..., 0, :]`; ragged: ValueError -/
+example : mvarray2 [(48, 0), (49, 3), (88, 1), (45, 2), (82, 5), (70, 6)] [[[48,49,88],[49,48,45]], [[49,49,82],[48,48,70]]]
+    = some ⟨[2, 3, 2], [0, 3, 3, 0, 1, 2, 3, 0, 3, 0, 5, 6]⟩ := by decide +kernel
+example : mvarray3 [(48, 0), (49, 3)] [[[[48,49],[49,49]], [[48,48],[49,48]]], [[[48,48],[49,49]], [[49,49],[48,48]]]]
+    = some ⟨[2, 2, 2, 2], [0, 3, 3, 3, 0, 3, 0, 0, 0, 3, 0, 3, 3, 0, 3, 0]⟩ := by decide +kernel
+example : mvarray2 [(48, 0), (49, 3)] [[[48,49,49]], [[49,49,48]]] = some ⟨[2, 3], [0, 3, 3, 3, 3, 0]⟩
+    ∧ mvarray2 [(48, 0), (49, 3)] [[[48,49],[49,49]], [[48,48]]] = none
+    ∧ mvarrayN1 [(48, 0), (49, 3)] [[48, 49, 88], [49, 49, 48]] = some ⟨[3, 2], [0, 3, 3, 3, 1, 0]⟩ := by decide +kernel
 
 /-! ## packbits / unpackbits: every width `w > 0`, signed and unsigned -/
 
